@@ -40,7 +40,15 @@ func compareChain(sh chainShape, table map[byte]refmodel.Behaviour, st *fw.Stats
 	desc := func() string {
 		hooks := ""
 		if sh.Hooks != "" {
-			hooks = fmt.Sprintf(" on a router with %q (E=OnError hook, P=OnPanic hook, W=a first middleware wraps c.Resp in a pass-through writer, H=the router served a hijacking request and a 404 before, C=dynamic route on a caching router measured on the second identical request, X=the router served a request that aborted and then panicked (no hook) before, D=debug mode on, S=group middleware added by separate Use calls and a sibling route with its own middleware registered afterwards)", sh.Hooks)
+			var parts []string
+			for _, h := range sh.Hooks {
+				parts = append(parts, string(h)+"="+map[rune]string{'E': "OnError hook", 'P': "OnPanic hook", 'W': "a first middleware wraps c.Resp in a pass-through writer", 'H': "the router served a hijacking request and a 404 before",
+					'C': "dynamic route on a caching router measured on the second identical request", 'X': "the router served a request that aborted and then panicked (no hook) before", 'D': "debug mode on",
+					'S': "group middleware added by separate Use calls and a sibling route with its own middleware registered afterwards",
+					'V': "middleware lists handed over as caller-owned spread slices with spare capacity which the caller then reuses for a second router (first global middleware) and for two sibling routes that add more with Route.Use (variadic route middleware)",
+					'K': "caching router; the measured chain belongs to a route registered for HEAD only on /x/{id}, a GET route with other middleware covers the same path; history GET, HEAD, then the measured HEAD request"}[h])
+			}
+			hooks = fmt.Sprintf(" on a router with %q (%s)", sh.Hooks, strings.Join(parts, "; "))
 		}
 		return fmt.Sprintf("chain of %d handlers (global %d, group %d, route %d via %s, + main), behaviours %q%s", sh.N, sh.Split[0], sh.Split[1], sh.Split[2], sh.Via, sh.Beh, hooks)
 	}
@@ -244,6 +252,25 @@ func c05Gen(tier string, emit func(c05Case)) {
 			}
 			for _, via := range []string{"variadic", "use"} {
 				vectors("pqastm", n, func(b string) { push(chainShape{N: n, Split: sp, Via: via, Beh: b, Hooks: "S"}) })
+			}
+		}
+	}
+	// the chain of every action of a resource controller (route middleware from Uses()), for every method of the REST table
+	for n := 1; n <= 3; n++ {
+		for _, sp := range splitsOf(n - 1) {
+			for _, via := range chainResVias {
+				vectors("pqas", n, func(b string) { push(chainShape{N: n, Split: sp, Via: via, Beh: b}) })
+			}
+		}
+	}
+	// caller-owned spread slices with spare capacity, reused by the caller for a second router / a sibling route
+	for n := 2; n <= 4; n++ {
+		for _, sp := range splitsOf(n - 1) {
+			for _, via := range []string{"variadic", "use", "mixed"} {
+				if sp[2] < 2 && via == "mixed" {
+					continue
+				}
+				vectors("pqas", n, func(b string) { push(chainShape{N: n, Split: sp, Via: via, Beh: b, Hooks: "V"}) })
 			}
 		}
 	}
